@@ -50,7 +50,7 @@ def _plan(ctx, w):
         'cloud': s.draw(2) == 1,
     }
     if kinds['net']:
-        w_rates = {'drop_request': 0.03, 'drop_response': 0.03, 'duplicate': 0.03}
+        w_rates = {'drop_request': 0.03, 'drop_response': 0.03, 'duplicate': 0.03, 'cancel_handler': 0.03}
         plan['net'] = {k: v for k, v in w_rates.items() if s.draw(2)}
     if kinds['db']:
         rates = {'deadlock': 0.004, 'lost_conn': 0.002, 'lost_conn_after': 0.002, 'lost_conn_after_commit': 0.004,
@@ -93,9 +93,14 @@ async def client_actor(ctx, w, idx, user, st):
                     p = jobs[s.draw(len(jobs))]
                     if p not in parents:
                         parents.append(p)
+                if s.draw(8) == 0:
+                    # job-private instance (own VM, Creating state, whole-machine resources registered first)
+                    res = {'machine_type': 'n1-standard-1', 'storage': '1Gi', 'preemptible': bool(s.draw(2))}
+                    ctx.probe('job_private_job')
+                else:
+                    res = {'cpu': CPUS[s.draw(len(CPUS))], 'memory': 'standard', 'storage': '1Gi'}
                 j = tgt.create_job('ubuntu:22.04', ['true'], parents=parents, always_run=s.draw(5) == 0,
-                                   resources={'cpu': CPUS[s.draw(len(CPUS))], 'memory': 'standard', 'storage': '1Gi'},
-                                   attributes={'uniq': f'c{idx}b{bi}j{len(jobs)}'})
+                                   resources=res, attributes={'uniq': f'c{idx}b{bi}j{len(jobs)}'})
                 jobs.append(j)
             if not b._jobs and not b._job_groups and b.is_created:
                 continue
@@ -114,7 +119,8 @@ async def client_actor(ctx, w, idx, user, st):
                 break
             # interleave cancels and reads with the next update
             for _ in range(s.draw(3)):
-                await asyncio.sleep(s.ticks(3000))
+                # sometimes wait long enough for jobs to be running when the cancel / read arrives
+                await asyncio.sleep(s.ticks(3000) if s.draw(3) else s.rint(5, 40))
                 act = s.draw(6)
                 try:
                     if act == 0:
@@ -140,6 +146,57 @@ async def client_actor(ctx, w, idx, user, st):
                 except Exception as e:  # pylint: disable=broad-except
                     log.add(f'client{idx}', 'op_failed', type(e).__name__, getattr(e, 'status', None))
     st['clients_done'] += 1
+
+
+async def legacy_actor(ctx, w, user, st):
+    """an old client: deprecated endpoints (batches/create, jobs/create with absolute `parent_ids`, close)."""
+    import json as _json
+    s = ctx.stream('legacy')
+    log = ctx.log
+    http = w.raw_session(user)
+    base = w.mods.deploy_config.base_url('batch')
+    hdr = {'Authorization': f'Bearer {user.token}'}
+
+    async def call(method, path, body=None):
+        for _ in range(6):
+            try:
+                resp = await http.request(method, base + path, json=body, headers=dict(hdr))
+                txt = await resp.text()
+                return resp.status, (_json.loads(txt) if txt and txt[0] in '{[' else None)
+            except asyncio.CancelledError:
+                raise
+            except Exception:  # pylint: disable=broad-except
+                await asyncio.sleep(0.5)
+        return 599, None
+    await asyncio.sleep(s.ticks(3000))
+    n = s.rint(2, 6)
+    stt, js = await call('POST', '/api/v1alpha/batches/create',
+                         {'billing_project': user.projects[0], 'n_jobs': n, 'token': f'legacy-{s.draw(10 ** 6)}',
+                          'attributes': {'name': 'legacy'}})
+    if stt != 200:
+        log.add('legacy', 'create_failed', stt)
+        return
+    bid = js['id']
+    specs = []
+    for i in range(1, n + 1):
+        parents = sorted({s.rint(1, i - 1) for _ in range(s.draw(3))}) if i > 1 else []
+        specs.append({'always_run': s.draw(5) == 0, 'job_id': i, 'parent_ids': parents,
+                      'process': {'command': ['true'], 'image': 'ubuntu:22.04', 'type': 'docker'},
+                      'resources': {'cpu': CPUS[s.draw(len(CPUS))], 'memory': 'standard', 'storage': '1Gi'}})
+    half = s.rint(1, n)
+    for chunk in (specs[:half], specs[half:]):
+        if chunk:
+            stt, _ = await call('POST', f'/api/v1alpha/batches/{bid}/jobs/create', chunk)
+            log.add('legacy', 'jobs_create', bid, len(chunk), stt)
+            if stt != 200:
+                return
+    stt, _ = await call('PATCH', f'/api/v1alpha/batches/{bid}/close')
+    log.add('legacy', 'close', bid, stt)
+    ctx.probe('legacy_batch_closed' if stt == 200 else 'legacy_close_failed')
+    if s.draw(3) == 0:
+        await asyncio.sleep(s.rint(1, 30))
+        stt, _ = await call('PATCH', f'/api/v1alpha/batches/{bid}/cancel')
+        log.add('legacy', 'cancel', bid, stt)
 
 
 async def chaos_actor(ctx, w, st):
@@ -180,6 +237,8 @@ def run(ctx):
         w.server.on_sql_error = o.sql_error
         loop.step_hooks.append(o.raise_pending)
         clients = [asyncio.create_task(client_actor(ctx, w, i, u, st), name=f'client{i}') for i, u in enumerate(users)]
+        if cfg.draw(3) == 0:
+            clients.append(asyncio.create_task(legacy_actor(ctx, w, users[0], st), name='legacy'))
         chaos = asyncio.create_task(chaos_actor(ctx, w, st), name='chaos')
         done, pending = await asyncio.wait(clients, timeout=400)
         for t in done:
